@@ -4,6 +4,8 @@ import Driver.ForestFam
 import Driver.Level2Fam
 import Driver.KernFam
 import Driver.MeshFam
+import Driver.DispFam
+import Driver.ValidFam
 
 open Driver
 
@@ -23,6 +25,8 @@ def stepLine (st : St) (line : String) : St × String :=
   | "level2" :: _ => (st, Level2Fam.step (line.drop 7).toString)
   | "kern" :: _ => (st, KernFam.step (line.drop 5).toString)
   | "mesh" :: _ => (st, MeshFam.step (line.drop 5).toString)
+  | "valid" :: _ => (st, ValidFam.step (line.drop 6).toString)
+  | "disp" :: _ => (st, DispFam.step (line.drop 5).toString)
   | _ => (st, "bad-family")
 
 partial def loop (h : IO.FS.Stream) (out : IO.FS.Stream) (st : St) : IO Unit := do
